@@ -117,7 +117,8 @@ def main():
             ck.violation("unbounded-for-bounded-lp", "%s returned for an LP with certified finite optimum %s under %s" % (st, float(cl[1]), cfg),
                          sc.replay_of(p, cfg, ru, {"certified_optimum": lpgen.qs(cl[1])}))
         if st == "OPTIMAL" and cname in ("infeasible", "unbounded"):
-            ck.violation("optimal-for-%s-lp:%s" % (cname, "+".join(t for t in tags if t == "polish") or "plain"), "OPTIMAL returned for an LP certified %s under %s" % (cname, cfg),
+            ck.violation("optimal-for-%s-lp:%s" % (cname, ("polish" if "polish" in tags else ("sumstarter" if cfg.get("starter") == 2 else "plain"))),
+                         "OPTIMAL returned for an LP certified %s under %s" % (cname, cfg),
                          sc.replay_of(p, cfg, ru, {"certified_class": cname, "exact": exs[k]}))
         # every offered vector must be a valid proof
         if "farkas" in ru:
